@@ -152,54 +152,54 @@ func runC04(c *Ctx) {
 		}
 	}
 	// loops: whole-string ASCII guard and HRP rune validation
-	var asciiLoop, hrpLoop *rangeLoop
-	loops := rangeLoopsAll(b)
-	for i := range loops {
-		l := &loops[i]
+	asciiOK := func(b2 *ana.Builder, l *rangeLoop) bool {
+		return l.Coll.String() == "p0" && forAll(b2, *l, "bin<<>(index(p0, ind<+1>(0)), 128)", "bin<<=>(index(p0, ind<+1>(0)), 127)", "bin<<>(ext#2(next(range(p0))), 128)")
+	}
+	hrpOK := func(b2 *ana.Builder, l *rangeLoop) bool {
 		coll := l.Coll
 		if x, ch := ana.ExpandCalls(c.P, coll); ch {
 			coll = x // a separator position reported by a helper
 		}
-		switch coll.String() {
-		case "p0":
-			if forAll(b, *l, "bin<<>(index(p0, ind<+1>(0)), 128)", "bin<<=>(index(p0, ind<+1>(0)), 127)", "bin<<>(ext#2(next(range(p0))), 128)") {
-				asciiLoop = l
-			}
-		case "slice(p0, 0, " + hl + ")", "upto(" + hl + ")":
-			// s[:hrpLen] ranged as runes, or byte positions 0..hrpLen-1 converted to runes (the string is ASCII there)
-			elems := []string{"call<*>(ext#2(next(range(slice(p0, 0, " + hl + ")))))", "call<*>(conv<rune>(index(p0, ind<+1>(0))))"}
-			for _, ce := range b.CondEdges() {
-				if _, m := ana.MatchAny(ce.Lit, elems...); m {
-					if h := calleeOf(ce.Lit); h != nil && forAll(b, *l, ce.Lit.String()) {
-						hb := ana.NewBuilder(c.P, h)
-						vs := &ana.VSA{B: hb, Tracked: []string{"p0"}, Ranges: [][2]int64{{0, 400}}}
-						acceptSet := map[int64]bool{}
-						okEval := true
-						sets, tuples := vs.Run()
-						for _, e := range ana.Exits(h) {
-							for idx := range sets[e.Instr.Block()] {
-								x := ana.TupleOf(tuples, idx)[0]
-								val, ok := evalReturnBool(vs, h, e, []int64{x})
-								if !ok {
-									okEval = false
-								}
-								if val {
-									acceptSet[x] = true
-								}
+		if cs := coll.String(); cs != "slice(p0, 0, "+ana.Expand(hl)+")" && cs != "upto("+ana.Expand(hl)+")" {
+			return false
+		}
+		// s[:hrpLen] ranged as runes, or byte positions 0..hrpLen-1 converted to runes (the string is ASCII there)
+		elems := []string{"call<*>(ext#2(next(range(slice(p0, 0, " + hl + ")))))", "call<*>(conv<rune>(index(p0, ind<+1>(0))))"}
+		for _, ce := range b2.CondEdges() {
+			if _, m := ana.MatchAny(ce.Lit, elems...); m {
+				if h := calleeOf(ce.Lit); h != nil && forAll(b2, *l, ce.Lit.String()) {
+					hb := ana.NewBuilder(c.P, h)
+					vs := &ana.VSA{B: hb, Tracked: []string{"p0"}, Ranges: [][2]int64{{0, 400}}}
+					acceptSet := map[int64]bool{}
+					okEval := true
+					sets, tuples := vs.Run()
+					for _, e := range ana.Exits(h) {
+						for idx := range sets[e.Instr.Block()] {
+							x := ana.TupleOf(tuples, idx)[0]
+							val, ok := evalReturnBool(vs, h, e, []int64{x})
+							if !ok {
+								okEval = false
+							}
+							if val {
+								acceptSet[x] = true
 							}
 						}
-						r.Fn(ana.ShortFunc(h))
-						r.Check(okEval && setEqual(acceptSet, stepSet(33, 126, 1)), "C04.exits.hrp-char-range", c.P.Pos(h.Pos()), "HRP character predicate accepts exactly 33..126 over 0..400 (accept set size %d)", len(acceptSet))
-						hrpLoop = l
 					}
+					r.Fn(ana.ShortFunc(h))
+					r.Check(okEval && setEqual(acceptSet, stepSet(33, 126, 1)), "C04.exits.hrp-char-range", c.P.Pos(h.Pos()), "HRP character predicate accepts exactly 33..126 over 0..400 (accept set size %d)", len(acceptSet))
+					return true
 				}
 			}
 		}
+		return false
 	}
+	// the loop in Decode, or in a first-violation scanner Decode tests against "none found"
+	asciiGate := scanGates(c, b, asciiOK)
+	hrpGate := scanGates(c, b, hrpOK)
 	for _, v := range succ {
 		blk := v.top().Blk
-		r.Check(asciiLoop != nil && mustPass(fn, blk, []ana.Edge{{From: asciiLoop.Header, To: asciiLoop.Exit}}), "C04.exits.gate.all-bytes-ascii", c.vpos(v), "success return follows a loop over the whole string that continues only for bytes < 0x80")
-		r.Check(hrpLoop != nil && mustPass(fn, blk, []ana.Edge{{From: hrpLoop.Header, To: hrpLoop.Exit}}), "C04.exits.gate.hrp-chars", c.vpos(v), "success return follows a loop over s[:hrpLen] that continues only for valid HRP runes")
+		r.Check(mustPass(fn, blk, asciiGate), "C04.exits.gate.all-bytes-ascii", c.vpos(v), "success return follows a loop over the whole string that continues only for bytes < 0x80")
+		r.Check(mustPass(fn, blk, hrpGate), "C04.exits.gate.hrp-chars", c.vpos(v), "success return follows a loop over s[:hrpLen] that continues only for valid HRP runes")
 	}
 	// reject-closed
 	rejectPats = append(rejectPats,
@@ -598,6 +598,39 @@ func c04BoundsIn(c *Ctx, fn *ssa.Function, b *ana.Builder, entry map[int]bool, d
 				if _, ok := ana.MatchAny(vt, "ind<+1>(0)", "ext#1(next(range(_)))"); ok {
 					r.OK("C04.offset-range.loop-index", c.ipos(x), "offset is the index of a loop over the string or its prefix (< len(s))")
 					continue
+				}
+				// a position reported by a first-violation scanner over the string or a prefix of it, stored only when one was found
+				if call := stripObj(vt); call.Op == "call" && len(call.Args) == 1 {
+					if h := calleeOf(call); h != nil && h.Blocks != nil && len(h.Params) == 1 {
+						arg := call.Args[0]
+						_, prefix := ana.Match("slice(p0, 0, _)", arg)
+						guard := plainEdges(edgesMatching(b, "raw:bin<>=>("+termPat(call)+", 0)", "raw:bin<!=>("+termPat(call)+", -1)"))
+						hb := boundBuilderP(c.P, call)
+						positions := true
+						for _, e := range ana.Exits(h) {
+							if e.Panic || len(e.Results) != 1 {
+								positions = false
+								continue
+							}
+							rt := hb.Of(e.Results[0], e.Instr)
+							if k, isInt := rt.Int(); isInt && k == -1 {
+								continue
+							}
+							if _, m := ana.MatchAny(rt, "ind<+1>(0)", "ext#1(next(range("+termPat(arg)+")))"); !m {
+								positions = false
+							}
+						}
+						bounded := false
+						for _, l := range rangeLoopsAll(hb) {
+							if l.Coll.String() == arg.String() {
+								bounded = true
+							}
+						}
+						if (arg.IsParam(0) || prefix) && positions && bounded && mustPass(fn, blk, guard) {
+							r.OK("C04.offset-range.loop-index", c.ipos(x), "offset is a position a scanner over the string (or its prefix) reported (< len(s))")
+							continue
+						}
+					}
 				}
 				for idx := range sets[blk] {
 					tu := ana.TupleOf(tuples, idx)
